@@ -68,22 +68,3 @@ pub open spec fn te_result(vs: Seq<AsciiString>, r: Result<(bool, bool), HttpErr
         match codings_of(items) { Some(c) => r == Ok::<(bool, bool), HttpError>(c), None => r is Err && r->Err_0 is UnsupportedTransferEncoding }
     }
 }
-
-// ---- how the body is delimited (taken from the property): a transfer coding -> to the end of the coding (unknown length);
-// a Content-Length N -> exactly N bytes (none for 0); neither -> POST / PUT bodies (and bodies announced with Expect or a
-// gzip coding) run to the end of the stream, every other method has no body
-use std::path::PathBuf;
-#[verifier::external_type_specification]
-#[verifier::external_body]
-pub struct ExPathBuf(PathBuf);
-#[verifier::external_body]
-pub struct TempFile { _p: () }
-pub open spec fn body_class(chunked: bool, cl: Option<u64>, method: Seq<char>, expect: bool, gzip: bool) -> RequestBody {
-    if chunked { RequestBody::PendingUnknown }
-    else {
-        match cl {
-            Some(n) => if n == 0 { RequestBody::StaticStr("") } else { RequestBody::PendingKnown(n) },
-            None => if method == "POST"@ || method == "PUT"@ || expect || gzip { RequestBody::PendingUnknown } else { RequestBody::StaticStr("") },
-        }
-    }
-}
